@@ -6,6 +6,7 @@ from typing import Optional, TYPE_CHECKING
 import wn
 from wn.constants import ADJ, ADJ_SAT
 from wn._util import flatten
+from wn._queries import get_lexicon_extension_bases
 from wn import _core
 
 if TYPE_CHECKING:
@@ -109,8 +110,14 @@ def _hypernym_paths(
     if include_self:
         paths = [[synset] + path for path in paths] or [[synset]]
     if simulate_root and synset.id != _FAKE_ROOT:
+        # synsets of a lexicon and of its extensions share one simulated
+        # root (the lexicon is part of a synset's hash), so it is
+        # attributed to the lexicon that is extended
+        bases = get_lexicon_extension_bases(synset._lexid)
         root = _core.Synset.empty(
-            id=_FAKE_ROOT, _lexid=synset._lexid, _wordnet=synset._wordnet
+            id=_FAKE_ROOT,
+            _lexid=bases[-1] if bases else synset._lexid,
+            _wordnet=synset._wordnet,
         )
         paths = [path + [root] for path in paths] or [[root]]
     return paths
